@@ -7,7 +7,7 @@ import tempfile
 from hypothesis import strategies as st
 
 from .. import gen
-from ..engine import Sub, Violation
+from ..engine import Sub, Violation, canon
 from ..fake import ops
 from ..ref import irset
 
@@ -74,7 +74,8 @@ def check_payload(sig, case, cmd, text):
         raise Violation(f"C15/length-field/payload{cls}", case, want_len, got_len)
 
 
-def one_request(rep, sub, remote, ir, spec, rq, via_file):
+def one_request(rep, sub, remote, ir, spec, rq, via_file, spec_key=None):
+    spec_key = spec_key or canon(spec)
     ref = irset.lookup(ir, rq["on"], rq["mode"], rq["target"], rq["fan"], rq["swing"], rq["prev"])
     case = {"spec": spec, "requests": [rq], "via_file": via_file}
     if ref[0] == "unspecified":
@@ -83,7 +84,7 @@ def one_request(rep, sub, remote, ir, spec, rq, via_file):
     args = (ops._state(rq["on"]), ops._mode(rq["mode"]), rq["target"], ops._fan(rq["fan"]), ops._swing(rq["swing"]),
             None if rq["prev"] is None else ops._state(rq["prev"]))
     if ref[0] == "error":
-        rep.tick(sub, key=(spec, rq), nontrivial=True, labels=("unsupported-mode",))
+        rep.tick(sub, key=spec_key + repr(tuple(rq.values())), nontrivial=True, labels=("unsupported-mode",))
         try:
             cmd = remote.build_command(*args)
         except RuntimeError as exc:
@@ -111,7 +112,8 @@ def one_request(rep, sub, remote, ir, spec, rq, via_file):
     n = 4 + len(text)
     if n >= 256 or n < 16:
         labels.append("payload>=256" if n >= 256 else "payload<16")
-    rep.tick(sub, key=(spec, rq), nontrivial=bool(labels), labels=labels, sample=case if labels else None)
+    rep.tick(sub, key=spec_key + repr(tuple(rq.values())), nontrivial=bool(labels), labels=labels,
+             sample=case if labels and rep.per_sub[sub] < 4096 else None)
     try:
         cmd = remote.build_command(*args)
     except Exception as exc:
@@ -162,8 +164,9 @@ def body(rep, case, sub="lookup", full=False):
     reqs = case.get("requests", "grid")
     if reqs == "grid" or reqs == "full":
         check_capabilities(rep, sub, remote, ir, spec, via_file)
+        spec_key = canon(spec)
         for rq in grid(spec, reqs == "full"):
-            one_request(rep, sub, remote, ir, spec, rq, via_file)
+            one_request(rep, sub, remote, ir, spec, rq, via_file, spec_key)
     else:
         if not reqs:
             check_capabilities(rep, sub, remote, ir, spec, via_file)
@@ -198,7 +201,7 @@ def subchecks(tier):
     big = tier == "thorough"
     return [
         Sub("lookup", lambda rep, case: body(rep, case, "lookup"), strategy=strat_specs("full" if big else "grid"),
-            n=3_000 if big else 240, shards=16 if big else 8, shrink_budget=60),
+            n=6_000 if big else 1200, shards=16 if big else 8, shrink_budget=60),
         Sub("payload-lengths", body_payload, cases=lambda: [{"lo": a, "hi": min(a + 125, 2001)} for a in range(1, 2001, 125)],
             shards=16, exhaustive=True),
     ]
